@@ -19,7 +19,7 @@ def main(tier, replay=None):
         dict(name="two-crashes-l1r1", opts=[M, "msgs=l1r1", "signals=0"], bounds="0,0,2,0", total=2, tier="thorough", deadline=1800),
         dict(name="crash-l2-bounces", opts=[M, "msgs=l2", "signals=0"], bounds="0,0,1,%d" % (2 if q else 3), total=2 if q else 4, deadline=1800),
         dict(name="faults-l1r1", opts=[M, "msgs=l1r1", "signals=0"], bounds="0,%d,0,1" % (1 if q else 2), total=2 if q else 3, deadline=1800),
-        dict(name="faults-l2-bounces", opts=[M, "msgs=l2", "signals=0"], bounds="0,1,0,%d" % (2 if q else 3), total=3 if q else 4, deadline=1800),
+        dict(name="faults-l2-bounces", opts=[M, "msgs=l2", "signals=0", "queuerefuse=1"], bounds="0,1,0,%d" % (2 if q else 3), total=3 if q else 4, deadline=1800),
         dict(name="crash-two-messages", opts=[M, "msgs=l1+r2", "signals=0"], bounds="0,0,1,2", total=3, tier="thorough", deadline=1800),
         dict(name="crash-and-fault-l1r1", opts=[M, "msgs=l1r1", "signals=0"], bounds="0,1,1,0", total=2, tier="thorough", deadline=1800),
     ]
@@ -28,7 +28,7 @@ def main(tier, replay=None):
                 "virtual kernel with controller-scripted spawners and a virtual clock, run until the queue is empty with every unscripted "
                 "attempt answered success; deviations from that default are enumerated exhaustively up to the bound: which in-flight delivery "
                 "is answered and with K/Z/D/garbled/stray/mangled/oversized reports or the death of its spawner, TERM/ALRM/HUP at quiescent points (env), machine crash with every keep/lose pattern or "
-                "kill of qmail-send before every filesystem-mutating call of qmail-send/qmail-clean (crash), one failing call (fault); "
+                "kill of qmail-send before every filesystem-mutating call of qmail-send/qmail-clean (crash), one failing call or the queue program started for a bounce exiting 31 (permanent refusal) / 53 at once (fault); "
                 "monitors: a D mark only after a K/D report, recipient lists removed only when all done, info removed only when every "
                 "recipient was delivered or named in a queued bounce, queue drains; states = distinct (history, final queue tree)")
     res.assumptions = ["virtual kernel (appendix A), crash model of conf-qmail", "bounce/N is documented as not crash-proof: recipients whose only missing artefact after lost data is their bounce paragraph are exempt",
